@@ -300,8 +300,8 @@ COVERAGE_CFG = dict(name="cap4-pf1-video-coverage", cap=4, pf=1, video=True, off
 EXH = {
     "quick": [
         dict(name="cap4-pf0-video", cap=4, pf=0, video=True, offs=range(-7, 7), first=[1, 2, 3], maxarr=6,
-             streams=[small(28, [], [1, 2, 3]), small(3, [(6, 16)], [1, 2], 12)]),
-        dict(name="cap4-pf2-audio", cap=4, pf=2, video=False, offs=range(-7, 7), first=[1, 2], maxarr=6,
+             streams=[small(28, [], [1, 2, 3])]),
+        dict(name="cap4-pf2-audio", cap=4, pf=2, video=False, offs=range(-7, 7), first=[1, 2], maxarr=5,
              streams=[small(29, [], [1])]),
         dict(name="cap8-pf1-video", cap=8, pf=1, video=True, offs=range(-9, 11), first=[1, 2], maxarr=5,
              streams=[small(27, [], [2, 1], 24), small(2, [(7, 16)], [2, 1], 14)]),
@@ -420,7 +420,7 @@ def sim_setup(r, cap):
 
 def lockstep(sc, thorough, r, cov, traces):
     """Part 2: behaviours of M at the real constants, replayed into the real JitterBuffer."""
-    per = 60 if thorough else 16
+    per = 40 if thorough else 16
     depth = 90
     bufs = SIM_BUFFERS if thorough else SIM_BUFFERS[:2]
     n_beh = steps = 0
